@@ -156,13 +156,30 @@ def reads_cache(f):
     return any(isinstance(n, ast.Name) and n.id == CACHE and isinstance(n.ctx, ast.Load) for n in walk_local(f.node))
 
 
+_FA_CACHE = {}
+
+
+def _fa_of(node):
+    f = getattr(node, '_func', None)
+    if f is None:
+        return None
+    k = id(f.node)
+    if k not in _FA_CACHE:
+        _FA_CACHE.clear()
+        _FA_CACHE[k] = FA(f)
+    return _FA_CACHE[k]
+
+
 def in_true_branch_of(node, pred):
-    """node lies in the body of an If whose test satisfies pred(test); returns that If."""
+    """node lies in the body of an If whose test satisfies pred(test); returns that If.  Names in the test that are bound once to
+    an expression are read as that expression (`found = k in d; if found:`)."""
+    from ..fn import expand
+    fa = _fa_of(node)
     child = node
     for a in ancestors(node):
         if isinstance(a, ast.If):
             inbody = any(child is b or child in list(ast.walk(b)) for b in a.body)
-            if inbody and pred(a.test):
+            if inbody and (pred(a.test) or (fa is not None and pred(expand(a.test, fa)))):
                 return a
         # comprehension conditions / IfExp
         if isinstance(a, ast.IfExp) and (child is a.body or child in list(ast.walk(a.body))) and pred(a.test):
@@ -172,11 +189,22 @@ def in_true_branch_of(node, pred):
 
 
 def membership(test, key_src, container_src):
+    keys = key_src if isinstance(key_src, (set, list, tuple)) else [key_src]
     for c in ast.walk(test):
         if isinstance(c, ast.Compare) and len(c.ops) == 1 and isinstance(c.ops[0], ast.In) \
-                and src(c.left) == key_src and src(c.comparators[0]) == container_src:
+                and src(c.left) in keys and src(c.comparators[0]) == container_src:
             return True
     return False
+
+
+def key_spellings(key):
+    """The key as written and with its single-definition names expanded."""
+    from ..fn import expand
+    fa = _fa_of(key)
+    out = {src(key)}
+    if fa is not None:
+        out.add(src(expand(key, fa)))
+    return out
 
 
 def else_raises(ifnode, exc='KeyError'):
@@ -322,7 +350,7 @@ def run(ctx):
             if isinstance(getattr(node, '_parent', None), ast.Subscript) and node._parent.value is node and level == 'group':
                 pass
             cont = CACHE if level == 'group' else src(node.value)
-            guard = in_true_branch_of(node, lambda t: membership(t, src(key), cont))
+            guard = in_true_branch_of(node, lambda t: membership(t, key_spellings(key), cont))
             if 'sdss_flagexist' in roots and g is f_exist:
                 ctx.check('C07.GUARDED', guard is not None, g, node,
                           'sdss_flagexist: `%s` is evaluated only when `%s in %s` holds' % (src(node)[:40], src(key), cont),
@@ -338,6 +366,17 @@ def run(ctx):
                               'else branch, or try/except KeyError re-raising, expected)' % (g.qualname, level, src(node)[:40], level),
                           construct='lookup without KeyError exit: %s' % src(node)[:50])
     # flagname: group lookup only inside the loop over set bits
+    # (an explicit `bits = []; for bit in range(64): if <test>: bits.append(bit)` loop is read as the comprehension it spells out)
+    from .. import normal as _normal
+    from ..astutil import clone as _clone, link_parents as _link
+    from ..loader import Func as _Func
+    _n2 = _clone(f_name.node)
+    if _normal._loop_to_comprehension(_n2):
+        _link(_n2)
+        _n2._parent = getattr(f_name.node, '_parent', None)
+        f_name = _Func(f_name.module, f_name.qualname, _n2, f_name.cls)
+        for _x in ast.walk(_n2):
+            _x._func = f_name
     fa_n = FA(f_name)
     scan = None
     for n in walk_local(f_name.node):
